@@ -592,3 +592,82 @@ mod headers {
         kani::cover!(!cfg.color_only && cfg.handled && unchanged == 1, "binary line passed through");
     });
 }
+
+// ------------------------------------------------------------------------------------------------
+// C02 (`--color-only` is line for line): how many output lines the file-header writer produces.
+// The real `write_generic_diff_header_header_line` writing into a real `Vec<u8>`; the drawing
+// function is replaced by one that writes exactly one line (whatever the decoration would be is
+// not decided here). `--color-only` -> exactly one line per header line, never a blank line
+// before it and never omitted, even for the style "omit"; otherwise a blank line plus the header,
+// or nothing at all when the file style is "omit".
+mod color_only {
+    use super::super::*;
+    use crate::style::{DecorationStyle, Style};
+    use std::mem::MaybeUninit;
+    use std::ptr::addr_of_mut;
+
+    fn one_line(w: &mut dyn std::io::Write, _a: &str, _b: &str, _c: &str, _d: &crate::cli::Width, _s: Style, _t: ansi_term::Style) -> std::io::Result<()> {
+        w.write_all(b"H\n")
+    }
+    fn stub_get_draw_function(_d: DecorationStyle) -> (Box<draw::DrawFunction>, bool, ansi_term::Style) {
+        let k = 1u8; // see hunk_header.rs: Box::new of a zero-sized fn item crashes kani-compiler 0.68
+        (
+            Box::new(move |w: &mut dyn std::io::Write, a: &str, b: &str, c: &str, d: &crate::cli::Width, s: Style, t: ansi_term::Style| {
+                let _ = k;
+                one_line(w, a, b, c, d, s, t)
+            }),
+            false,
+            ansi_term::Style::new(),
+        )
+    }
+    fn stub_format(_args: std::fmt::Arguments<'_>) -> String {
+        String::new()
+    }
+
+    #[kani::proof]
+    #[kani::unwind(6)]
+    #[kani::stub(crate::handlers::draw::get_draw_function, stub_get_draw_function)]
+    #[kani::stub(std::fmt::format, stub_format)]
+    fn c02_file_header_line_count() {
+        let mut cfg_mem = MaybeUninit::<Config>::uninit();
+        let cp = cfg_mem.as_mut_ptr();
+        let color_only: bool = kani::any();
+        let omitted: bool = kani::any();
+        let raw: bool = kani::any();
+        unsafe {
+            addr_of_mut!((*cp).color_only).write(color_only);
+            addr_of_mut!((*cp).file_style).write(Style { is_omitted: omitted, is_raw: raw, decoration_style: DecorationStyle::NoDecoration, ..Style::new() });
+            addr_of_mut!((*cp).decorations_width).write(crate::cli::Width::Variable);
+        }
+        let config: &Config = unsafe { &*cp };
+        let mut sink: Vec<u8> = Vec::with_capacity(8);
+        let mut painter_mem = MaybeUninit::<Painter>::uninit();
+        let pp = painter_mem.as_mut_ptr();
+        unsafe {
+            addr_of_mut!((*pp).writer).write(&mut sink);
+        }
+        let painter: &mut Painter = unsafe { &mut *pp };
+        let mut mode_info = String::new();
+        let r = write_generic_diff_header_header_line("--- a/f", "--- a/f", painter, &mut mode_info, config);
+        assert!(r.is_ok(), "writing into memory cannot fail");
+        let mut newlines = 0usize;
+        let mut i = 0;
+        while i < 4 {
+            if i < sink.len() && sink[i] == b'\n' {
+                newlines += 1;
+            }
+            i += 1;
+        }
+        assert!(sink.len() <= 4, "harness: at most a blank line and the one-line header");
+        if color_only {
+            assert!(newlines == 1, "--color-only: one output line per header line: no blank line added, never omitted");
+        } else if omitted {
+            assert!(newlines == 0, "file style omit: nothing is printed");
+        } else {
+            assert!(newlines == 2, "a blank line and the header");
+        }
+        kani::cover!(color_only && omitted, "--color-only with an omitted file style");
+        kani::cover!(true, "end of harness reached");
+        std::mem::forget(sink);
+    }
+}
